@@ -106,6 +106,11 @@ impl<L: KVVStore> CloudKVVStore<L> {
         // a version below the local one, or the same version with different bytes, is refused ...
         r.is_ok() && old(self).local.kvv_view().dom().contains(key@) ==> version >= old(self).local.kvv_view()[key@].0
             && (version == old(self).local.kvv_view()[key@].0 ==> old(self).local.kvv_view()[key@].1@ == value@),        //[C16.cloud.never-lowers-version]
+        // (from the property text: "never lowers a version") the version the backend itself reports for the key - its own
+        // pending write if there is one (a transaction reads its own writes) - is not lowered by a write.  Failed on the
+        // pinned tree (the check was made against the local store only): fix c0174ea
+        log_view(*old(self))->Some_0.dom().contains(key@) ==> final(self).commit_log.val.is_some() && log_view(*final(self))->Some_0.dom().contains(key@)
+            && log_view(*final(self))->Some_0[key@].0 >= log_view(*old(self))->Some_0[key@].0,                          //[C16.cloud.never-lowers-staged-version]
         // ... and a refused write leaves no pending mutation
         r.is_err() ==> log_view(*final(self)) == log_view(*old(self)),                                                   //[C10.kvv-cloud.put-err-no-pending]
         r.is_ok() ==> final(self).commit_log.val.is_some() && (
@@ -114,21 +119,6 @@ impl<L: KVVStore> CloudKVVStore<L> {
         // a write above the local version (or of a locally new key) IS staged: it becomes the pending mutation of the key
         r.is_ok() && (!old(self).local.kvv_view().dom().contains(key@) || version > old(self).local.kvv_view()[key@].0) ==>
             log_view(*final(self))->Some_0 == log_view(*old(self))->Some_0.insert(key@, (version, value)),                //[C16.cloud.higher-version-is-staged]
-//@sub /let commit_log = self\.commit_log\.val\.as_mut\(\)\.vx_expect\(\);/ => 
-//@sub /\bcommit_log\./ => self.commit_log.val.as_mut().vx_expect().
-//@sub /existing\.1 != value/ => !vx_vec_eq(&existing.1, &value)
-//@end
-
-// the same body once more, under the clause the property text asks for and the real code does not meet (known finding
-// C16 / put_with_version): kept apart so that the contract above stays verified
-//@fn vls-persist/src/kvv/cloud.rs :: impl<L: KVVStore> KVVStore for CloudKVVStore<L> :: put_with_version props=C16 as=put_with_version_staged_view
-//@sigsub /&self/ => &mut self
-    requires old(self).commit_log.val.is_some(),
-    ensures
-        // (from the property text: "never lowers a version") the version the backend itself reports for the key - its own
-        // pending write if there is one (a transaction reads its own writes) - is not lowered by a write.  FAILS on the real body: the check is made against the local store only (known finding)
-        log_view(*old(self))->Some_0.dom().contains(key@) ==> final(self).commit_log.val.is_some() && log_view(*final(self))->Some_0.dom().contains(key@)
-            && log_view(*final(self))->Some_0[key@].0 >= log_view(*old(self))->Some_0[key@].0,                          //[C16.cloud.never-lowers-staged-version]
 //@sub /let commit_log = self\.commit_log\.val\.as_mut\(\)\.vx_expect\(\);/ => 
 //@sub /\bcommit_log\./ => self.commit_log.val.as_mut().vx_expect().
 //@sub /existing\.1 != value/ => !vx_vec_eq(&existing.1, &value)
